@@ -1239,6 +1239,12 @@ MUTANTS = [
     dict(id="C09.h-in-memory-insert-into-existing-set-dropped", prop="C09", file=ST + "key_of_set_map/in_memory.rs",
          old="        if let Some(set) = set {\n            set.insert_element(element);\n            return;", new="        if let Some(set) = set {\n            let _ = (set, element);\n            return;",
          expect="C09.h/in-memory/insert-reaches-the-set-on-every-path"),
+    dict(id="C01.r-backward-projection-schedules-non-projections", prop="C01", file=CG + "backward_projection.rs",
+         old="            if query_kind.is_projection() {", new="            if !(query_kind.is_projection()) {",
+         expect="C01.r/invoke_backward_projections/exactly-the-projection-callers"),
+    dict(id="C02.f-upgrade-returns-early-unless-exclusive", prop="C02", file=CG + "database/snapshot.rs",
+         old="        if matches!(self.lock.as_ref(), Some(QueryLock::Exclusive(_))) {", new="        if !(matches!(self.lock.as_ref(), Some(QueryLock::Exclusive(_)))) {",
+         expect="C02.f/Snapshot::upgrade_to_exclusive"),
     # ------------------------------------------------------------------ C09.f (D5)
     dict(id="C09.f-D5-fold-heap-in-arbitrary-order", prop="C09", file=ST + "key_of_set_map/cache.rs",
          old="""        let mut ordered = log.iter().collect::<Vec<_>>();
